@@ -49,7 +49,8 @@ type vTrigScenario struct {
 	cfg         vTrigCfg
 	ctrl        int
 	pulses      []int
-	slow        []int // start samples of slow pulses: they cross the level threshold without meeting the edge criterion
+	f0          *FrameIndex // frame number of the first sample (nil: 1000)
+	slow        []int       // start samples of slow pulses: they cross the level threshold without meeting the edge criterion
 	L           int
 	truth       [][]RawType
 	vals        []int // channel 0 as integers (signed or unsigned interpretation)
@@ -227,6 +228,10 @@ func vChoosePartition(x *vexp.X, L, maxCuts int, uniform bool) []int {
 
 // execute runs the scenario with the given partition on fresh real objects.
 func (sc *vTrigScenario) execute(x *vexp.X, bounds []int) *vTrigRun {
+	vF0 = 1000
+	if sc.f0 != nil {
+		vF0 = *sc.f0
+	}
 	run := &vTrigRun{sc: sc, bounds: bounds}
 	src := vNewSource(2, sc.npre, sc.nsamp)
 	defer src.close()
@@ -528,6 +533,12 @@ func vTrigCases(r *vexp.Runner, withEMT bool, each func(id string, sc *vTrigScen
 						sc := &vTrigScenario{npre: g.npre, nsamp: g.nsamp, signed: signed, cfg: cfg, ctrl: ctrl, pulses: ps, L: L}
 						id := fmt.Sprintf("n%d-%d/signed=%v/%s/%s/pulses=%v", g.npre, g.nsamp, signed, cfg.name, vCtrlNames[ctrl], ps)
 						each(id, sc)
+						// a source whose frame numbers start at 0 (the simulated sources): early single pulses, fresh start
+						if len(ps) == 1 && ps[0] <= g.npre+3 && (ctrl == vCtrlRestored || ctrl == vCtrlBefore) {
+							zero := FrameIndex(0)
+							sc0 := &vTrigScenario{npre: g.npre, nsamp: g.nsamp, signed: signed, cfg: cfg, ctrl: ctrl, pulses: ps, L: L, f0: &zero}
+							each(id+"/frame0=0", sc0)
+						}
 					}
 					// level-trigger configurations: fast pulses (edge + level) followed by a slow, level-only pulse at
 					// every offset from "inside the second pulse" to "two records after it" (the level scan has to find
